@@ -32,7 +32,7 @@ const childAS = 4 << 30 // RLIMIT_AS of the child
 const childWatchdog = 15 * time.Second
 
 type job struct {
-	Op   string `json:"op"`             // mzfrombytes | entry | merklize
+	Op   string `json:"op"`             // mzfrombytes | entry | entrykv | merklize
 	Data []byte `json:"data"`           // gob stream / JSON document
 	Tree string `json:"tree,omitempty"` // "" | "empty": WithMerkleTree(fresh empty tree)
 }
@@ -94,6 +94,16 @@ func runJob(j *job, loader *ctxload.Loader) error {
 	case "entry":
 		var e merklize.RDFEntry
 		return e.UnmarshalBinary(j.Data)
+	case "entrykv": // restore an entry, then hash its key and value
+		var e merklize.RDFEntry
+		if err := e.UnmarshalBinary(j.Data); err != nil {
+			return err
+		}
+		k, v, err := e.KeyValueMtEntries()
+		if err == nil && (k == nil || v == nil) {
+			return fmt.Errorf("NILNIL")
+		}
+		return err
 	case "merklize":
 		mz, err := merklize.MerklizeJSONLD(context.Background(), bytes.NewReader(j.Data), merklize.WithDocumentLoader(loader))
 		if err == nil && mz == nil {
